@@ -230,7 +230,59 @@ def check_reject(case):
     return res
 
 
+def check_alias(case):
+    """'no accepted component can show negative loss, efficiency above 100 % ... in any solved system': also not after the caller has edited, in
+    place, the very table / list / limits objects he passed to the constructor (e.g. while preparing a variant that the constructor then rejects)."""
+    res = Res()
+    kind, key = case["kind"], case["key"]
+    kw = copy.deepcopy(case["kw"])
+    obj = kw[key]                      # the very object handed to the constructor
+    comp = KINDS[kind]("X", **kw)      # no copy on our side: the constructor sees the caller's objects
+    # the caller now scribbles unphysical values over his own objects
+    if isinstance(obj, dict) and "io" in obj:
+        z = [k for k in obj if k not in ("vi", "io")][0]
+        for row in obj[z]:
+            row[:] = [3.0 if z == "eff" else -2.0 * v for v in row]
+    elif isinstance(obj, list):
+        obj[:] = [-9.0 for _ in obj]
+    elif isinstance(obj, dict):       # limits
+        for k_ in list(obj):
+            obj[k_][:] = [0.0, 1e-12]
+    try:
+        KINDS[kind]("Y", **kw)        # rejected where the statement says so; X is a finished component either way
+    except Exception:
+        pass
+    spec = probe_spec(kind, {})
+    from sysloss.system import System
+    from sysloss.components import Source, ILoad, PLoad
+    s = System("alias", Source("S", vo=5.0, rs=0.1))
+    s.add_comp("S", comp=comp)
+    if kind not in LOADS:
+        s.add_comp("X", comp=ILoad("L", ii=0.1))
+        s.add_comp("X", comp=PLoad("L2", pwr=0.05))
+    res.stats["evaluations"] += 2
+    try:
+        df, _ = quiet_call(s.solve)
+    except Exception:
+        res.classes.add("alias:solve-raises")
+        res.nontrivial = 1
+        return res
+    for r in df.to_dict("records"):
+        if r["Component"] != "X":
+            continue
+        P, L, E, vin, vout = (float(r[c]) for c in ("Power (W)", "Loss (W)", "Efficiency (%)", "Vin (V)", "Vout (V)"))
+        if L < -1e-7 or E > 100.0 + 1e-6 or L > P + 1e-7:
+            res.v(("C11.unphysical-after-caller-edit", kind, key), "after the caller edited the %s object he had passed in: Power %r Loss %r Efficiency %r" % (key, P, L, E))
+        if kind in ("VLoss", "PSwitch", "PMux", "Rectifier") and abs(vout) > abs(vin) + 1e-6:
+            res.v(("C11.unphysical-after-caller-edit", kind, key, "amplifies"), "Vin %r Vout %r" % (vin, vout))
+    res.nontrivial = 1
+    res.classes.add("alias")
+    return res
+
+
 def check_case(case):
+    if case["fam"] == "alias":
+        return check_alias(case)
     return check_sign(case) if case["fam"] == "sign" else check_reject(case)
 
 
@@ -239,6 +291,19 @@ def gen_cases(tier):
         yield dict(fam="sign", key=key)
     for label, kind, kw, must in reject_menu():
         yield dict(fam="reject", label=label, kind=kind, kw=kw, must_reject=must)
+    lim = {"vi": [0.0, 6.0], "ii": [0.0, 2.0], "tp": [-40.0, 90.0]}
+    al = [("Converter", "eff", dict(vo=3.3, eff=T1("eff", [0.5, 0.7, 0.9]))), ("Converter", "eff", dict(vo=3.3, eff=T2("eff", [[0.5, 0.6, 0.7], [0.55, 0.65, 0.75]]))),
+          ("VLoss", "vdrop", dict(vdrop=T1("vdrop", [0.1, 0.2, 0.3]))), ("VLoss", "vdrop", dict(vdrop=T2("vdrop", [[0.1, 0.2, 0.3], [0.15, 0.25, 0.35]]))),
+          ("LinReg", "ig", dict(vo=3.3, ig=T1("ig", [1e-3, 2e-3, 3e-3]))), ("LinReg", "ig", dict(vo=3.3, ig=T2("ig", [[1e-3, 2e-3, 3e-3], [2e-3, 3e-3, 4e-3]]))),
+          ("PSwitch", "ig", dict(rs=0.1, ig=T1("ig", [1e-3, 2e-3, 3e-3]))), ("PMux", "ig", dict(rs=0.1, ig=T2("ig", [[1e-3, 2e-3, 3e-3], [2e-3, 3e-3, 4e-3]]))),
+          ("Rectifier", "vdrop", dict(vdrop=T1("vdrop", [0.1, 0.2, 0.3]))), ("Rectifier", "ig", dict(vdrop=0.0, rs=0.1, ig=T1("ig", [1e-3, 2e-3, 3e-3]))),
+          ("PMux", "rs", dict(rs=[0.1, 0.2], ig=1e-3))]
+    for kind, kw0 in (("Source", dict(vo=5.0)), ("PLoad", dict(pwr=0.1)), ("ILoad", dict(ii=0.1)), ("RLoad", dict(rs=50.0)), ("RLoss", dict(rs=1.0)), ("VLoss", dict(vdrop=0.1)),
+                      ("Converter", dict(vo=3.3, eff=0.9)), ("LinReg", dict(vo=3.3)), ("PSwitch", dict()), ("PMux", dict()), ("Rectifier", dict(vdrop=0.2))):
+        if kind != "Source":
+            al.append((kind, "limits", dict(kw0, limits=copy.deepcopy(lim))))
+    for kind, key, kw in al:
+        yield dict(fam="alias", kind=kind, key=key, kw=kw)
 
 
 def replay(doc):
